@@ -225,6 +225,37 @@ func newMonC11(s *Sim) *StepMon {
 func newMonC12(s *Sim) *StepMon {
 	m := &StepMon{Prop: "C12", sim: s}
 	custody := authtypes.NewModuleAddress(commitmenttypes.ModuleName)
+	// Known finding F04 (UncommitTokens ADDS to the chain-wide total): every uncommit of amount a
+	// raises total - sum(accounts) by exactly 2a. uncommitted[d] is measured independently of the
+	// commitment keeper: for bank-backed denoms as the bank outflow of the custody account (ledger),
+	// for Eden/EdenB from the successful uncommit/unstake messages.
+	uncommitted := map[string]sdkmath.Int{}
+	m.BeforeBoundary = func(s *Sim, eb *ExecBlock) {
+		cust := custody.String()
+		for i := range s.Ledger.Moves {
+			mv := &s.Ledger.Moves[i]
+			if mv.Kind == "spent" && mv.Addr == cust {
+				for _, c := range mv.Coins {
+					uncommitted[c.Denom] = zeroIfNil(uncommitted, c.Denom).Add(c.Amount)
+				}
+			}
+		}
+		for _, t := range eb.Txs {
+			if !t.OK() {
+				continue
+			}
+			for _, msg := range flattenMsgs(t.Spec.Msgs) {
+				switch x := msg.(type) {
+				case *commitmenttypes.MsgUncommitTokens:
+					uncommitted[x.Denom] = zeroIfNil(uncommitted, x.Denom).Add(x.Amount)
+				case *commitmenttypes.MsgUnstake:
+					if x.Asset == DenomEDEN || x.Asset == DenomEDENB {
+						uncommitted[x.Asset] = zeroIfNil(uncommitted, x.Asset).Add(x.Amount)
+					}
+				}
+			}
+		}
+	}
 	m.Eval = func(s *Sim, ctx sdk.Context) []Issue {
 		var out []Issue
 		app := s.N0.App
@@ -258,7 +289,15 @@ func newMonC12(s *Sim) *StepMon {
 		for d := range denoms {
 			t := total.AmountOf(d)
 			if !t.Equal(zeroIfNil(committed, d)) {
-				out = append(out, issuef("total_vs_sum", d, "chain-wide committed total=%s but sum over accounts=%s (difference %s)", t, zeroIfNil(committed, d), t.Sub(zeroIfNil(committed, d))))
+				diff := t.Sub(zeroIfNil(committed, d))
+				explained := zeroIfNil(uncommitted, d).MulRaw(2)
+				sub := "total_vs_sum"
+				// EdenB is additionally burned from the committed bucket without touching the total
+				// (same defect family): there the drift is at least the explained amount.
+				if diff.Equal(explained) || (d == DenomEDENB && diff.GTE(explained)) {
+					sub = "total_vs_sum_uncommit_adds"
+				}
+				out = append(out, issuef(sub, d, "chain-wide committed total=%s but sum over accounts=%s (difference %s; 2 x uncommitted so far = %s)", t, zeroIfNil(committed, d), diff, explained))
 			}
 		}
 		for d := range denoms {
